@@ -172,6 +172,21 @@ class Collections:
                 return seq("vec", [])
             if "BTreeSet" in full and name == "new":
                 return seq("set", [])
+        # integer ranges are iterators: `a..b` is an aggregate of std::ops::Range, `a..=b` comes from RangeInclusive::new
+        if name == "new" and "RangeInclusive" in full and len(args) == 2 and all(E.is_int(it.deref_val(a)) for a in args):
+            lo, hi = it.deref_val(args[0])[1], it.deref_val(args[1])[1]
+            return seq("iter", [E.Int(i) for i in range(lo, hi + 1)])
+        if s0 is None and a0 is not None:
+            d0 = it.deref_val(a0)
+            if d0 is not None and d0[0] == "adt" and d0[1].endswith("ops::Range") and E.is_int(d0[3].get(0)) and E.is_int(d0[3].get(1)) and \
+                    name in ("into_iter", "next", "next_back", "rev", "map", "filter", "filter_map", "for_each", "try_for_each", "try_fold", "fold", "collect", "any", "all", "count", "len", "step_by", "take", "skip", "enumerate", "rposition", "position", "find", "find_map"):
+                mat = seq("iter", [E.Int(i) for i in range(d0[3][0][1], d0[3][1][1])])
+                if a0[0] == "ref":
+                    it.write_loc(a0[1], mat)
+                else:
+                    a0 = mat
+                    args = [mat] + list(args[1:])
+                s0 = mat
         if s0 is None:
             return None
         k, items = s0[1], s0[2]
@@ -308,6 +323,23 @@ class Collections:
             return seq("iter", [("tuple", [E.Int(i), x]) for i, x in enumerate(items)])
         if name == "chain" and len(args) == 2 and self._get(it, args[1]) is not None:
             return seq("iter", items + self._get(it, args[1])[2])
+        if name in ("find", "find_map"):
+            for x in items:
+                if name == "find":
+                    nm = "item#%d" % (len(it.heap) + 1)
+                    it.heap[nm] = x
+                    r = it.deref_val(it.apply(args[1], [E.href(nm)]))
+                    if not E.is_int(r):
+                        raise E.Unsupported("find predicate undetermined")
+                    if r[1]:
+                        return E.Some(x)
+                else:
+                    r = it.deref_val(it.apply(args[1], [x]))
+                    if r is None or r[0] != "adt" or r[1] != E.OPTION:
+                        raise E.Unsupported("find_map result undetermined")
+                    if r[2] == 1:
+                        return r
+            return E.NONE
         if name == "count":
             return E.Int(len(items))
         if name == "last" and k == "iter":
@@ -349,9 +381,13 @@ class Collections:
             # the Try type of the result is the callback's: rebuild the success value in the same type
             return E.Ok(acc) if "Result<" in full or "anyhow" in full else (E.Some(acc) if "Option<" in full else E.Ok(acc))
         if name in ("collect", "from_iter"):
-            if "BTreeSet" in full:
+            import re as _re
+            mt = _re.search(r"(?:collect|from_iter)::<(.*)$", (t["f"].get("full") or ""))
+            target = mt.group(1) if mt else ((t["f"].get("full") or "").lstrip("<").split(" as ")[0] if name == "from_iter" else full)
+            if target.startswith("std::collections::BTreeSet") or (mt is None and "BTreeSet" in full):
                 return seq("set", self._sorted(it, items))
-            if "Result<" in full or "Option<" in full:
+            into_try = target.startswith("std::result::Result<") or target.startswith("std::option::Option<") if mt else ("Result<" in full or "Option<" in full)
+            if into_try:
                 # collect::<Result<Vec<_>, _>>: first Err wins
                 out = []
                 for x in items:
@@ -362,7 +398,7 @@ class Collections:
                     if not good:
                         return d
                     out.append(d[3].get(0, E.TOP))
-                return E.Ok(seq("vec", out)) if "Result<" in full else E.Some(seq("vec", out))
+                return E.Ok(seq("vec", out)) if ("Result<" in target[:24] or (mt is None and "Result<" in full)) else E.Some(seq("vec", out))
             return seq("vec", items)
         if name in ("extend",) and len(args) == 2 and self._get(it, args[1]) is not None:
             more = self._get(it, args[1])[2]
